@@ -22,6 +22,7 @@ MCNext ==
   \/ Crash /\ ncrash < MaxCrash /\ ncrash' = ncrash + 1 /\ UNCHANGED nflush
   \/ Recover /\ Same
   \/ SyncGC /\ Same
+  \/ (\E res \in BOOLEAN : ExpireCheck(res)) /\ Same
   \/ (\E c \in -1..MaxEntries, a \in -1..MaxEntries : LogRollback(c, a)) /\ Same
 MCSpec == MCInit /\ [][MCNext]_mcvars
 =============================================================================
